@@ -306,6 +306,7 @@ def same_events(ctx, rule, instance, fi, got, want, what, skip_args=(), guards=F
 
             pairs.append(("condition under which it happens", cond(g), cond(w)))
         for j, a, b in pairs:
+            a, b = _whole_collection(a), _whole_collection(b)
             try:
                 eq, how, wit = equivalent(a, b)
             except Unsupported as e:
@@ -315,6 +316,25 @@ def same_events(ctx, rule, instance, fi, got, want, what, skip_args=(), guards=F
     ctx.ok(rule, instance, fi.where(), "%s: %d call(s) agree with the specification: %s" % (what, len(got), _clip(" | ".join(sig(e) for e in got), 300)))
     ctx.sample({"rule": rule, "instance": instance, "calls": [sig(e) for e in got][:6]})
     return True
+
+
+def _whole_collection(v):
+    """A list that names every element of one collection D, once each and in D's order (`[x for x in D]`, `list(D)`,
+    the keys of a mapping listed one by one) is, as an argument that is read, D itself (value semantics: a copy is
+    what it copies; iterating a mapping yields its keys)."""
+    from .termflow import AList, K_ELEMS, key_atom, poly_from_key, _is_polykey
+
+    if isinstance(v, AList) and len(getattr(v, "doms", None) or []) == 1 and len(v.items) == K_ELEMS and _is_polykey(v.doms[0]):
+        dom = v.doms[0]
+        da = key_atom(dom)
+        if da is not None and da[0] == "mcall" and da[1] in ("items", "keys") and not da[3] and not da[4] and _is_polykey(da[2]):
+            dom = da[2]  # the keys of M, listed while walking M.items() / M.keys()
+        for i, x in enumerate(v.items):
+            a = x.as_atom() if hasattr(x, "as_atom") else None
+            if a is None or a[0] not in ("elem", "elemk") or len(a) != 3 or a[1] != dom or a[2] != i:
+                return v
+        return poly_from_key(dom)
+    return v
 
 
 def _vacuous(val, e):
